@@ -31,6 +31,8 @@ fn payload(wid: u8, seq: usize, len: usize) -> Vec<u8> {
 #[derive(Clone, Debug)]
 enum WOp {
     Write(usize),
+    /// like Write, but a retry after Pending passes a buffer grown by this many bytes
+    WriteGrow(usize, usize),
     Flush,
 }
 
@@ -40,31 +42,46 @@ struct WLog {
     done: Vec<(usize, usize, Vec<u8>)>,
     errors: Vec<String>,
     contended: u64,
+    grown_retries: u64,
 }
 
-/// One poll_write call driven to completion (re-polled with the same buffer until Ready).
-async fn write_once(w: &mut StreamWriter<Writer>, buf: &[u8], pipe: &Shared, log: &Arc<Mutex<WLog>>) -> std::io::Result<usize> {
-    std::future::poll_fn(|cx| {
+/// One poll_write call driven to completion: re-polled until Ready, with the same buffer or —
+/// `grow` — with a longer buffer that has the same prefix (what a copy loop that keeps filling
+/// its buffer does). Returns (n, the buffer passed to the successful call).
+async fn write_once(w: &mut StreamWriter<Writer>, buf: Vec<u8>, grow: usize, pipe: &Shared, log: &Arc<Mutex<WLog>>) -> std::io::Result<(usize, Vec<u8>)> {
+    let mut buf = buf;
+    let mut grow = grow;
+    let n = std::future::poll_fn(|cx| {
         let before = pipe.lock().unwrap().pending_writes;
-        let r = Pin::new(&mut *w).poll_write(cx, buf);
-        if r.is_pending() && pipe.lock().unwrap().pending_writes == before {
-            // Pending although the transport did not refuse: another writer holds the lock
-            log.lock().unwrap().contended += 1;
+        let r = Pin::new(&mut *w).poll_write(cx, &buf);
+        if r.is_pending() {
+            if pipe.lock().unwrap().pending_writes == before {
+                // Pending although the transport did not refuse: another writer holds the lock
+                log.lock().unwrap().contended += 1;
+            }
+            if grow > 0 && !buf.is_empty() {
+                let l = buf.len();
+                buf.extend((0..grow).map(|j| 0x30 | ((l + j) & 0x0f) as u8));
+                grow = 0;
+                log.lock().unwrap().grown_retries += 1;
+            }
         }
         r
     })
-    .await
+    .await?;
+    Ok((n, buf))
 }
 
 async fn writer_task(mut w: StreamWriter<Writer>, wid: u8, ops: Vec<WOp>, pipe: Shared, log: Arc<Mutex<WLog>>, done: Arc<Done>) {
     let mut seq = 0;
     for op in ops {
         match op {
-            WOp::Write(len) => {
+            WOp::Write(len) | WOp::WriteGrow(len, _) => {
+                let grow = if let WOp::WriteGrow(_, g) = op { g } else { 0 };
                 let buf = payload(wid, seq, len);
                 seq += 1;
-                match write_once(&mut w, &buf, &pipe, &log).await {
-                    Ok(n) => log.lock().unwrap().done.push((len, n, buf[..n.min(len)].to_vec())),
+                match write_once(&mut w, buf, grow, &pipe, &log).await {
+                    Ok((n, buf)) => log.lock().unwrap().done.push((len, n, buf[..n.min(buf.len())].to_vec())),
                     Err(e) => {
                         log.lock().unwrap().errors.push(format!("write: {e}"));
                         break;
@@ -156,7 +173,11 @@ fn gen_ops(rng: &mut Rng, big: bool) -> Vec<WOp> {
                 if !big && l > 5000 {
                     l = rng.below(300);
                 }
-                WOp::Write(l)
+                if rng.chance(1, 5) {
+                    WOp::WriteGrow(l, 1 + rng.below(40))
+                } else {
+                    WOp::Write(l)
+                }
             }
         })
         .collect()
@@ -230,7 +251,8 @@ fn check_output(out: &[u8], id: u16, writers: &[(u8, WLog)], model_replies: &[sp
             return Err(("write-missing-from-output".into(), format!("writer {k} ({}): successful write #{} of {} bytes has no record in the output", wire::type_name(*t), next[k], log.done[next[k]].1)));
         }
         for (i, (given, n, _)) in log.done.iter().enumerate() {
-            if *n != (*given).min(65535) {
+            // (a retry with a grown buffer may legitimately report more than the first call's length)
+            if *n < (*given).min(65535) || *n > 65535 || (*n > *given && log.grown_retries == 0) {
                 return Err(("write-return-value".into(), format!("writer {k}: write #{i} of {given} bytes returned {n}, expected {}", (*given).min(65535))));
             }
         }
@@ -414,11 +436,13 @@ fn run_a(c: &mut Case, big: bool) {
             c.l.add("vectored_write_cut_in_padding", p.cut_in_padding);
             c.l.add("transport_pending_writes", p.pending_writes);
             c.l.add("successful_writes", wl.iter().map(|(_, l)| l.done.len() as u64).sum());
+            c.l.add("retries_with_grown_buffer", wl.iter().map(|(_, l)| l.grown_retries).sum());
             c.l.count("runs_checked");
             let mut h = beh.class();
             for o in &all_ops {
                 for op in o {
                     h = mix(h, match op {
+                        WOp::WriteGrow(n, g) => (*n as u64) << 8 | *g as u64,
                         WOp::Write(n) => *n as u64,
                         WOp::Flush => 0xf1,
                     });
@@ -532,6 +556,7 @@ pub fn run(ctx: &Ctx, evidence: Option<&PathBuf>) -> i32 {
     ctx.gate("vectored_write_cut_in_padding", 20);
     ctx.gate("management_replies_between_stream_records", 20);
     ctx.gate("thread_runs_checked", 10);
+    ctx.gate("retries_with_grown_buffer", 50);
     ctx.finish(
         "exploration",
         "Run A (deterministic): Request::new + 1..3 StreamWriters (stdout, stderr, a clone) each on its own executor task issuing single poll_write calls of {0,1,7,8,9,16,255,1000,4096,65535,65536,100000} bytes and poll_flush, \
